@@ -10,7 +10,7 @@ from .. import pb
 
 ID = "C15"
 ORACLE = "Oracle.C15"
-PROPS = "Props/C15.v"
+PROPS = ["Props/C15.v", "Props/C15gen.v"]
 LEVEL = "proof"
 SHARD = 120
 CODES = {
